@@ -509,6 +509,8 @@ pub fn run(out: &mut Out, tier: &str, rng: &mut Rng) {
     let full = gen::tokens_full();
     let red = gen::tokens_reduced();
     let firsts = gen::first_tokens();
+    out.comment("non-ASCII look-alikes: one character replaced by one that a Unicode-aware mapping would fold to ASCII");
+    for b in gen::LOOKALIKE_BASES.iter() { for s in gen::lookalikes(b) { parse_ops(out, s.as_bytes()); out.case("extmap", &[s.as_bytes()], || extmap(s.as_bytes())); } }
     out.comment("regression corpus (minimised earlier failures), always first");
     par_stage(out, "par_locale", crate::langid::par_inputs(), locale, if thorough { 300 } else { 30 });
     for s in crate::corpus::REGRESS.iter() { parse_ops(out, s.as_bytes()); value_ops(out, s.as_bytes()); }
